@@ -23,6 +23,10 @@ use crate::sched::{explore, ActorBody, ActorCtx, Exec};
 #[derive(Clone, Copy, Debug, PartialEq, Eq, Hash)]
 enum Kind {
     Session,
+    /// a session whose input is a tool envelope: the tool's frames are emitted as ONE BATCH (the
+    /// batch path of the emitter, used for tool runs and provider chunks); the log appends between
+    /// its frames are scheduling points whatever the batch code looks like
+    SessionTool,
     Task,
     /// two emitters of one task (its stdout and stderr readers) and one subscriber
     TaskTwoEmitters,
@@ -98,6 +102,7 @@ fn drain_body_now(body: &mut Body) -> Vec<(u64, String)> {
 fn filter_for(kind: Kind) -> Vec<&'static str> {
     match kind {
         Kind::Session | Kind::SessionLogFailure => vec!["sess.publish", "sess.buffer", "sse.session.*", "sub.*", "start"],
+        Kind::SessionTool => vec!["sess.publish", "sess.buffer", "sse.session.*", "sub.*", "start", "log.appended"],
         Kind::Task | Kind::TaskTwoEmitters | Kind::TaskLogFailure => vec!["task.publish", "task.buffer", "task.seq", "sse.task.*", "sub.*", "start"],
         Kind::Thread | Kind::ThreadColdCache => vec![
             "cont.publish",
@@ -187,7 +192,7 @@ fn make_world(kind: Kind, rt: &Arc<tokio::runtime::Runtime>, subscribers: usize)
     let mut actors: Vec<ActorBody> = Vec::new();
     let (stream_id, uri, expected_frames): (String, String, usize);
     match kind {
-        Kind::Session | Kind::SessionLogFailure => {
+        Kind::Session | Kind::SessionLogFailure | Kind::SessionTool => {
             let resp = rt.block_on(router.clone().oneshot(Request::builder().method("POST").uri("/sessions").body(Body::empty()).unwrap())).unwrap();
             let bytes = rt.block_on(http_body_util::BodyExt::collect(resp.into_body())).unwrap().to_bytes();
             let v: Value = serde_json::from_slice(&bytes).unwrap();
@@ -201,11 +206,12 @@ fn make_world(kind: Kind, rt: &Arc<tokio::runtime::Runtime>, subscribers: usize)
                 if failing {
                     ctx.set_env(Box::new(FailNthAppend { n: std::cell::Cell::new(0), fail_at: 1 }));
                 }
-                ctx.block_on(engine.verif_session_future(handle, "hello".to_string(), None, None));
+                let input = if kind == Kind::SessionTool { json!({"tool": "ls", "args": {}}).to_string() } else { "hello".to_string() };
+                ctx.block_on(engine.verif_session_future(handle, input, None, None));
             }));
             stream_id = sid.clone();
             uri = format!("/sessions/{sid}/events");
-            expected_frames = 3;
+            expected_frames = if kind == Kind::SessionTool { 5 } else { 3 }; // tool: started, tool_started, tool_stdout, tool_ended, ended
         }
         Kind::Task | Kind::TaskLogFailure => {
             let kinds = vec![
@@ -432,9 +438,101 @@ fn new_rt_mt() -> Arc<tokio::runtime::Runtime> {
     Arc::new(tokio::runtime::Builder::new_multi_thread().worker_threads(1).enable_all().build().expect("rt"))
 }
 
+/// A client that has attached and then does NOT read while the stream goes on (engine P, no
+/// scheduler): the handler has subscribed and taken its snapshot, the body is not polled, N frames
+/// are produced, then the body is read to the end. The join must hold for a lag of N = 4 096
+/// frames - a quarter of the channel capacity of the code under test (16 384), which is the lag it
+/// is built to absorb; beyond that capacity the handlers skip what the channel dropped (recorded
+/// as a limit in DESIGN.md).
+fn stalled_client(report: &Report) {
+    const N: usize = 4096;
+    let rt = new_rt_mt();
+    for kind in ["task", "thread"] {
+        if report.over_cap() {
+            return;
+        }
+        let fx = Fx::new(rt.clone());
+        let app = {
+            let _g = rt.enter();
+            ripd::verif_export::VerifApp::new(fx.engine.clone(), false)
+        };
+        let router = app.router();
+        let (stream_id, uri, produce): (String, String, Box<dyn FnOnce()>) = if kind == "task" {
+            let kinds: Vec<EventKind> = (0..N).map(|i| EventKind::ToolTaskCancelRequested { task_id: "t".into(), reason: format!("r{i}") }).collect();
+            let (tid, fut) = rt.block_on(app.create_task_emit_future(json!({"tool": "bash", "args": {"command": "true"}}), kinds)).expect("task");
+            let rt2 = rt.clone();
+            (tid.clone(), format!("/tasks/{tid}/events"), Box::new(move || rt2.block_on(fut)))
+        } else {
+            let store = fx.store();
+            let thread = store.ensure_default().expect("thread");
+            let t2 = thread.clone();
+            (thread.clone(), format!("/threads/{thread}/events"), Box::new(move || {
+                for i in 0..N {
+                    let _ = store.append_message(&t2, "u".into(), "o".into(), format!("m{i}"));
+                }
+            }))
+        };
+        // attach: the handler subscribes and snapshots; the body is left unread
+        let resp = rt.block_on(router.clone().oneshot(Request::builder().uri(&uri).body(Body::empty()).unwrap())).expect("infallible");
+        if !resp.status().is_success() {
+            crate::common::machinery_failure(&format!("c06.stalled_client: GET {uri} answered {}", resp.status()));
+        }
+        produce();
+        // now read: everything that is there, until the body stays silent
+        let mut body = resp.into_body();
+        let mut buf = String::new();
+        let mut got: Vec<u64> = Vec::new();
+        rt.block_on(async {
+            loop {
+                match tokio::time::timeout(std::time::Duration::from_millis(300), http_body_util::BodyExt::frame(&mut body)).await {
+                    Ok(Some(Ok(frame))) => {
+                        if let Ok(data) = frame.into_data() {
+                            buf.push_str(&String::from_utf8_lossy(&data));
+                            while let Some(idx) = buf.find("\n\n") {
+                                let block: String = buf[..idx].to_string();
+                                buf.drain(..idx + 2);
+                                for line in block.lines() {
+                                    if let Some(rest) = line.strip_prefix("data:") {
+                                        if let Ok(v) = serde_json::from_str::<Value>(rest.trim_start()) {
+                                            if let Some(seq) = v["seq"].as_u64() {
+                                                got.push(seq);
+                                            }
+                                        }
+                                    }
+                                }
+                            }
+                        }
+                    }
+                    _ => break,
+                }
+            }
+        });
+        let truth: Vec<u64> = fx.truth_all().unwrap_or_default().iter().filter(|e| e.stream_id() == stream_id).map(|e| e.seq).collect();
+        report.eval(Some(&("stalled_client", kind)));
+        report.count("stalled_client_frames_expected", truth.len() as u64);
+        if truth.len() < N {
+            crate::common::machinery_failure(&format!("c06.stalled_client: only {} frames were produced", truth.len()));
+        }
+        if got != truth {
+            let first_bad = got.iter().zip(truth.iter()).position(|(a, b)| a != b).unwrap_or(got.len().min(truth.len()));
+            report.violation(
+                &format!("C06:stalled_client:{kind}"),
+                json!({"engine": "P", "harness": "c06.stalled_client", "stream": kind, "frames_produced_while_unread": N}),
+                &format!("a client attached to the {kind} stream and read nothing while {N} frames were produced; it then received {} of {} frames, the first deviation at position {first_bad} (got seq {:?}, due {:?})", got.len(), truth.len(), got.get(first_bad), truth.get(first_bad)),
+            );
+        }
+    }
+}
+
 pub fn replay(report: &Report, case: &Value) {
+    if case["harness"] == "c06.stalled_client" {
+        rip_kernel::verif::clear();
+        stalled_client(report);
+        return;
+    }
     let kind = match case["harness"].as_str().unwrap_or("") {
         "c06.Session" => Kind::Session,
+        "c06.SessionTool" => Kind::SessionTool,
         "c06.Task" => Kind::Task,
         "c06.TaskTwoEmitters" => Kind::TaskTwoEmitters,
         "c06.SessionLogFailure" => Kind::SessionLogFailure,
@@ -494,6 +592,11 @@ pub fn run(opts: Opts) -> i32 {
                 scope.spawn(move || run_harness(report, kind, 2, 2));
             }
         }
+        // the batch path of the session emitter (a tool run): one subscriber, all interleavings
+        {
+            let report = &report;
+            scope.spawn(move || run_harness(report, Kind::SessionTool, 1, usize::MAX));
+        }
         // two emitters + one subscriber: three actors, bounded
         let report = &report;
         let b = tier.pick(2, 3);
@@ -502,6 +605,9 @@ pub fn run(opts: Opts) -> i32 {
         scope.spawn(move || run_harness(report, Kind::SessionLogFailure, 1, usize::MAX));
         scope.spawn(move || run_harness(report, Kind::TaskLogFailure, 1, usize::MAX));
     });
+    // engine P part: the real runtime, no scheduler hooks
+    rip_kernel::verif::clear();
+    stalled_client(&report);
     report.sample(json!({"harness": "c06.Session", "actors": ["producer: run_session('hello')", "subscriber: GET /sessions/{id}/events"], "schedule_example": ["0:start", "0:sess.publish", "1:start", "1:sse.session.subscribe", "1:sse.session.snapshot", "0:sess.buffer", "..."]}));
     report.finish()
 }
